@@ -338,8 +338,6 @@ def run_case(case):
             want_states = len(states)  # initial state + one state per distinguishable parameter set (<= |alphabet|+1)
     if len(states) != want_states and not any(f["sig"].startswith("materials-depend-on-history") for f in fails):
         add("distinct-states-count", dict(got=len(states), want=want_states, note="longer histories reached material states that no single parameter set produces"), ())
-    if want_states < len(letters):
-        add("harness:parameter-alphabet-collapses", dict(states_after_one_step=want_states), ())
     # conformance traces: full-length histories ending in the all-distinct set, replayed from a freshly placed scene
     traces = 0
     for first in (letters[1], letters[4]):
@@ -351,4 +349,4 @@ def run_case(case):
         if _digest(_mat_arrays(arr2)) != by_last["distinct"][0]:
             add("conformance:fresh-scene-replay-differs", {}, hist)
     nontriv = int(len(states) >= 3 and bool(np.any(placed["inv_eps"][:, inside] != placed["inv_eps"][:, inside][:, :1])))
-    return dict(ok=not fails, failures=fails, nontrivial=nontriv, evals=transitions + 2 * case["depth"], states=len(states), transitions=transitions, traces=traces, outcome=f"{len(states)} states", detail=dict(states=len(states), transitions=transitions))
+    return dict(ok=not fails, failures=fails, nontrivial=nontriv, evals=transitions + 2 * case["depth"], states=len(states), transitions=transitions, traces=traces, outcome=f"{len(states)} distinct material states", detail=dict(states=len(states), transitions=transitions))
